@@ -402,6 +402,9 @@ Definition lookup_ip (x : ext) (host addr : text) : option (option ipaddr) :=
 
 Definition lookup_name (n : text) (port : Z) : text := if port =? 0 then n else with_port n port.
 
+(* address / CIDR entries see the parsed address only in a lookup of the plain names *)
+Definition pass_ip (ip : option ipaddr) (port : Z) : option ipaddr := if port =? 0 then ip else None.
+
 (* One lookup returns, for each marker, exactly the keys of the entry lines that the matching rule
    selects for the looked-up names - no other line contributes and no selected line is lost. *)
 Theorem kh_match_spec x lines st host addr port r :
@@ -410,13 +413,14 @@ Theorem kh_match_spec x lines st host addr port r :
   exists ip, lookup_ip x host addr = Some ip /\
   forall m k, In k (keys_of m r) <->
               exists p, In (m, p, k) (kh_entries x lines) /\
-                        line_selects x p (lookup_name host port) (lookup_name addr port) ip = true.
+                        line_selects x p (lookup_name host port) (lookup_name addr port) (pass_ip ip port) = true.
 Proof.
   intros Hl Hm. apply kh_load_inv in Hl as [He Hp]. simpl in He, Hp.
   unfold kh_match, kh_match_gen in Hm. fold (lookup_ip x host addr) in Hm.
-  destruct (lookup_ip x host addr) as [ip|]; [|discriminate]. exists ip. split; [reflexivity|].
+  destruct (lookup_ip x host addr) as [ip0|]; [|discriminate]. exists ip0. split; [reflexivity|].
   fold (lookup_name host port) in Hm. fold (lookup_name addr port) in Hm.
   set (h := lookup_name host port) in *. set (a := lookup_name addr port) in *.
+  rewrite orb_false_r in Hm. fold (pass_ip ip0 port) in Hm. set (ip := pass_ip ip0 port) in *.
   cbn [negb orb] in Hm.
   set (ms := map snd (filter (fun e => nonempty h && zlist_eqb (fst e) h) (kh_exact st)) ++
              map snd (filter (fun e => nonempty a && zlist_eqb (fst e) a) (kh_exact st)) ++
@@ -516,7 +520,7 @@ Theorem revoked_line_reported x lines host addr port r ip p k :
   kh_lookup_lines x lines host addr port = Some r ->
   lookup_ip x host addr = Some ip ->
   In (MRevoked, p, k) (kh_entries x lines) ->
-  line_selects x p (lookup_name host port) (lookup_name addr port) ip = true ->
+  line_selects x p (lookup_name host port) (lookup_name addr port) (pass_ip ip port) = true ->
   In k (r_revoked r).
 Proof.
   unfold kh_lookup_lines. intros H Hip Hent Hsel.
@@ -687,6 +691,35 @@ Example revoked_port_fallback_now_kept :
   kh_lookup_lines wit_ext [[104; 32; 75]; 64 :: txt_revoked ++ [32; 91; 104; 93; 58; 50; 50; 50; 50; 32; 75]] [104] [] 2222
   = Some {| r_host := [7]; r_ca := []; r_revoked := [7] |}.
 Proof. vm_compute. reflexivity. Qed.
+
+(* Before repair 9f68483 ([kh_lookup_lines_mid]): line "127.0.0.1,!g K", lookup of host g at
+   address 127.0.0.1, port 2222.  The negated component g matches the host name, yet K was returned
+   as trusted: the pass with the port matched the undecorated address entry by the parsed address
+   while comparing the negated name with [g]:2222. *)
+Theorem negation_bypassed_with_port_mid :
+  exists x lines host addr port p k neg r,
+    In (MNone, p, k) (kh_entries x lines) /\
+    In (true, neg) (plist_split p) /\ wild_match neg host = true /\
+    kh_lookup_lines_mid x lines host addr port = Some r /\ In k (r_host r).
+Proof.
+  exists wit_ext, [[49;50;55;46;48;46;48;46;49;44;33;103;32;75]], [103], [49;50;55;46;48;46;48;46;49], 2222,
+         [49;50;55;46;48;46;48;46;49;44;33;103], 7, [103].
+  eexists. split; [vm_compute; auto|]. split; [vm_compute; auto|]. split; [reflexivity|].
+  split; [vm_compute; reflexivity|left; reflexivity].
+Qed.
+
+(* the same file and lookup with the repaired code: the line is excluded *)
+Example negation_with_port_now_excludes :
+  kh_lookup_lines wit_ext [[49;50;55;46;48;46;48;46;49;44;33;103;32;75]] [103] [49;50;55;46;48;46;48;46;49] 2222
+  = Some {| r_host := []; r_ca := []; r_revoked := [] |} /\
+  kh_lookup_lines wit_ext [[49;50;55;46;48;46;48;46;49;44;33;103;32;75]] [104] [49;50;55;46;48;46;48;46;49] 2222
+  = Some {| r_host := [7]; r_ca := []; r_revoked := [] |}.
+Proof. vm_compute. auto. Qed.
+
+(* an address / CIDR entry never matches without a parsed address, hence never in a pass with a port *)
+Theorem cidr_needs_plain_pass n host addr ip port :
+  port <> 0 -> hp_match (HCidr n) host addr (pass_ip ip port) = false.
+Proof. intros Hp. unfold pass_ip. apply Z.eqb_neq in Hp. rewrite Hp. reflexivity. Qed.
 
 (* A key importer that raises something other than KeyImportError on a key field (the importer
    before repair e01fa70 did, for well-framed blobs with impossible parameters; [wit_ext] does on
